@@ -250,6 +250,7 @@ func ruleC11(w *World, r *Report) {
 	// triples it names: the matching semantics of Authenticate (shared with C12)
 	k.authenticateRule("C11.whitelist.")
 	// the applications treat a relayed packet like a direct one; no partial commits in the handlers
+	k.routingStoreRule("C11.whitelist.store")
 	k.appNoRelayRule("C11.app.norelay")
 	k.ctxRule("C11.ctx")
 	r.MinInstances("C11.", 25)
